@@ -105,13 +105,13 @@ func (g *vfGen) runMore15(slice string) bool {
 
 func (g *vfGen) hostileLabel() []byte {
 	special := []byte{'"', '\\', ';', '=', '\'', '%', '*', '\r', '\n', '\t', 0x7F, 0x80, 0xFF, ' ', ',', '/', '(', '@', 0x00, 0x1F, 0xC3, 0xA9}
-	n := 1 + g.rng.Intn(12)
+	n := 1 + g.intn(12)
 	b := make([]byte, n)
 	for i := range b {
-		if g.rng.Intn(2) == 0 {
-			b[i] = special[g.rng.Intn(len(special))]
+		if g.intn(2) == 0 {
+			b[i] = special[g.intn(len(special))]
 		} else {
-			b[i] = byte('a' + g.rng.Intn(26))
+			b[i] = byte('a' + g.intn(26))
 		}
 	}
 	return b
@@ -142,7 +142,7 @@ func (g *vfGen) genC02() {
 	}
 	for i := 0; i < g.pick(3000, 200000); i++ {
 		v := g.hostileLabel()
-		t := types[g.rng.Intn(3)]
+		t := types[g.intn(3)]
 		g.emit(vfOp("fmt", []byte(t), v))
 		if full := mime.FormatMediaType(t, map[string]string{"charset": string(v)}); full != "" {
 			g.emit(vfOp("parse", []byte(full)))
@@ -152,7 +152,7 @@ func (g *vfGen) genC02() {
 	for i := 0; i < g.pick(1500, 60000); i++ {
 		l := g.hostileLabel()
 		var doc []byte
-		switch g.rng.Intn(5) {
+		switch g.intn(5) {
 		case 0:
 			doc = append(append([]byte("<html><meta charset=\""), l...), []byte("\"><body>x")...)
 		case 1:
@@ -191,7 +191,7 @@ func (g *vfGen) genC02() {
 				}
 				sc := fmt.Sprintf("%s:always:%s:%s:%s", parent, vfHex([]byte(fmt.Sprintf("application/x-verif-alias%d", ai))), vfHex([]byte(".va")), strings.Join(hx, "+"))
 				for _, d := range docs {
-					g.emit(vfOp("xwalk", sc, d, []uint32{0, 3072}[g.rng.Intn(2)]))
+					g.emit(vfOp("xwalk", sc, d, []uint32{0, 3072}[g.intn(2)]))
 				}
 			}
 		}
@@ -206,7 +206,7 @@ func (g *vfGen) genC02() {
 	}
 	// error paths: the value returned with an error is exactly application/octet-stream
 	for i := 0; i < 40; i++ {
-		g.emit(vfOp("reader", []int{0, 16, 3072}[g.rng.Intn(3)], g.textBytes(60), "~", 0, g.rng.Intn(30)))
+		g.emit(vfOp("reader", []int{0, 16, 3072}[g.intn(3)], g.textBytes(60), "~", 0, g.intn(30)))
 	}
 	g.emit("filebad missing")
 	g.emit("filebad dir")
@@ -215,15 +215,15 @@ func (g *vfGen) genC02() {
 func (g *vfGen) decorate(name string) string {
 	b := []byte(name)
 	for i := range b {
-		if g.rng.Intn(3) == 0 && b[i] >= 'a' && b[i] <= 'z' {
+		if g.intn(3) == 0 && b[i] >= 'a' && b[i] <= 'z' {
 			b[i] -= 32
 		}
 	}
 	s := string(b)
 	ws := []string{"", " ", "  ", "\t", " \t "}
-	s = ws[g.rng.Intn(len(ws))] + s + ws[g.rng.Intn(len(ws))]
+	s = ws[g.intn(len(ws))] + s + ws[g.intn(len(ws))]
 	params := []string{"", "; charset=utf-8", ";charset=\"iso-8859-1\"", "; q=0.8", "; a=b; c=\"d e\"", "; charset*=utf-8''caf%C3%A9", " ; x=y ", ";", "; boundary=\"--x;y\""}
-	return s + params[g.rng.Intn(len(params))]
+	return s + params[g.intn(len(params))]
 }
 
 func (g *vfGen) genC15() {
@@ -243,7 +243,7 @@ func (g *vfGen) genC15() {
 			g.emit(vfOp("is", []byte(n), []byte(g.decorate(n))))
 		}
 		// a different registered name must not match (unless alias / same type)
-		o := names[g.rng.Intn(len(names))]
+		o := names[g.intn(len(names))]
 		g.emit(vfOp("is", []byte(n), []byte(g.decorate(o))))
 		// names that strictly extend the type (font/woff vs font/woff2)
 		g.emit(vfOp("eqany", []byte(n), []byte(n+"2; q=0.8")))
@@ -251,11 +251,11 @@ func (g *vfGen) genC15() {
 	}
 	// parser model on arbitrary ASCII strings
 	for i := 0; i < g.pick(3000, 100000); i++ {
-		n := names[g.rng.Intn(len(names))]
+		n := names[g.intn(len(names))]
 		s := g.decorate(n)
-		if g.rng.Intn(3) == 0 {
-			j := g.rng.Intn(len(s) + 1)
-			s = s[:j] + string("=;\"\\/ *'%"[g.rng.Intn(9)]) + s[j:]
+		if g.intn(3) == 0 {
+			j := g.intn(len(s) + 1)
+			s = s[:j] + string("=;\"\\/ *'%"[g.intn(9)]) + s[j:]
 		}
 		g.emit(vfOp("parse", []byte(s)))
 	}
@@ -263,7 +263,7 @@ func (g *vfGen) genC15() {
 	for i := 0; i < g.pick(600, 20000); i++ {
 		l := g.hostileLabel()
 		doc := append(append([]byte("<html><meta charset=\""), l...), []byte("\"><body>x")...)
-		if g.rng.Intn(2) == 0 {
+		if g.intn(2) == 0 {
 			doc = append(append([]byte("<?xml version=\"1.0\" encoding=\""), l...), []byte("\"?><r/>")...)
 		}
 		g.emit(vfOp("res", doc, 0))
